@@ -406,3 +406,121 @@ Example W_consistency_nonvacuous :
 Proof.
   intros s. apply (W_virocon_icdf_cdf sts_doc); try (intros; reflexivity); cbn; lra.
 Qed.
+
+(* ---------------------------------------------------------------- log-normal, generalized gamma, von Mises through the generated maps *)
+Section ViroconMore.
+  Variable sts : call R -> R -> R.
+  Variables Phi PhiInv : R -> R.                 (* standard normal cdf and quantile function *)
+  Variables F0gg Q0gg : R -> R -> R -> R.        (* standard generalized gamma cdf / quantile function, per shapes (a, c) *)
+  Variables Fvm Qvm : R -> R -> R.               (* von Mises cdf / quantile function centred at 0, per kappa *)
+  Hypothesis lognorm_cdf : forall x s loc scale, loc < x ->
+    sts (mkcall "lognorm" "cdf" [s; loc; scale]) x = Phi (ln ((x - loc) / scale) / s).
+  Hypothesis lognorm_ppf : forall p s loc scale, 0 < p < 1 ->
+    sts (mkcall "lognorm" "ppf" [s; loc; scale]) p = loc + scale * exp (s * PhiInv p).
+  Hypothesis Phi_inv_l : forall z, PhiInv (Phi z) = z.
+  Hypothesis Phi_inv_r : forall p, 0 < p < 1 -> Phi (PhiInv p) = p.
+  Hypothesis Phi_range : forall z, 0 < Phi z < 1.
+  Hypothesis gengamma_cdf : forall x a c loc scale,
+    sts (mkcall "gengamma" "cdf" [a; c; loc; scale]) x = LScdf (F0gg a c) loc scale x.
+  Hypothesis gengamma_ppf : forall p a c loc scale, 0 < p < 1 ->
+    sts (mkcall "gengamma" "ppf" [a; c; loc; scale]) p = LSppf (Q0gg a c) loc scale p.
+  Hypothesis gg_inv_l : forall a c z, 0 < z -> Q0gg a c (F0gg a c z) = z.
+  Hypothesis gg_inv_r : forall a c p, 0 < p < 1 -> 0 < Q0gg a c p /\ F0gg a c (Q0gg a c p) = p.
+  Hypothesis gg_range : forall a c z, 0 < z -> 0 < F0gg a c z < 1.
+  Hypothesis vonmises_cdf : forall x kappa loc, sts (mkcall "vonmises" "cdf" [kappa; loc]) x = Fvm kappa (x - loc).
+  Hypothesis vonmises_ppf : forall p kappa loc, 0 < p < 1 -> sts (mkcall "vonmises" "ppf" [kappa; loc]) p = loc + Qvm kappa p.
+  Hypothesis vm_inv_l : forall k z, - PI < z < PI -> Qvm k (Fvm k z) = z.
+  Hypothesis vm_inv_r : forall k p, 0 < p < 1 -> - PI < Qvm k p < PI /\ Fvm k (Qvm k p) = p.
+  Hypothesis vm_range : forall k z, - PI < z < PI -> 0 < Fvm k z < 1.
+
+  Section LN.
+    Variable s : @LogNormalDistribution R.
+    Variables m sg : option R.
+    Let mu := ov m (LogNormalDistribution_mu s).
+    Let sigma := ov sg (LogNormalDistribution_sigma s).
+    Notation cdf := (eval sts (LogNormalDistribution_cdf RN s m sg)).
+    Notation icdf := (eval sts (LogNormalDistribution_icdf RN s m sg)).
+    Lemma LN_calls :
+      LogNormalDistribution_cdf RN s m sg = mkcall "lognorm" "cdf" [sigma; 0; exp mu] /\
+      LogNormalDistribution_icdf RN s m sg = mkcall "lognorm" "ppf" [sigma; 0; exp mu].
+    Proof using. subst mu sigma. destruct m, sg; cbn; split; reflexivity. Qed.
+    Hypothesis Hsigma : 0 < sigma.
+    Lemma ln_arg x : 0 < x -> ln ((x - 0) / exp mu) = ln x - mu.
+    Proof using. intros H. rewrite Rminus_0_r. unfold Rdiv. rewrite ln_mult; [|exact H|apply Rinv_0_lt_compat, exp_pos].
+      rewrite ln_Rinv by apply exp_pos. rewrite ln_exp. ring. Qed.
+    Lemma LN_virocon_documented x : 0 < x -> cdf x = Phi ((ln x - mu) / sigma).
+    Proof using lognorm_cdf. intros H. destruct LN_calls as [-> _]. unfold eval. rewrite lognorm_cdf by exact H. rewrite ln_arg by exact H. reflexivity. Qed.
+    Lemma LN_virocon_icdf_cdf x : 0 < x -> icdf (cdf x) = x.
+    Proof using lognorm_cdf lognorm_ppf Phi_inv_l Phi_range Hsigma.
+      intros H. destruct LN_calls as [-> ->]. unfold eval. rewrite lognorm_cdf by exact H. rewrite lognorm_ppf by apply Phi_range.
+      rewrite Phi_inv_l, ln_arg by exact H.
+      replace (sigma * ((ln x - mu) / sigma)) with (ln x - mu) by (field; lra).
+      unfold Rminus. rewrite exp_plus, exp_ln, exp_Ropp by exact H. field. apply Rgt_not_eq, exp_pos.
+    Qed.
+    Lemma LN_virocon_cdf_icdf p : 0 < p < 1 -> 0 < icdf p /\ cdf (icdf p) = p.
+    Proof using lognorm_cdf lognorm_ppf Phi_inv_r Hsigma.
+      intros H. destruct LN_calls as [-> ->]. unfold eval. rewrite lognorm_ppf by exact H.
+      assert (Hpos : 0 < 0 + exp mu * exp (sigma * PhiInv p)).
+      { rewrite Rplus_0_l. apply Rmult_lt_0_compat; apply exp_pos. }
+      split; [exact Hpos|]. rewrite lognorm_cdf by exact Hpos.
+      replace ((0 + exp mu * exp (sigma * PhiInv p) - 0) / exp mu) with (exp (sigma * PhiInv p)) by (field; apply Rgt_not_eq, exp_pos).
+      rewrite ln_exp. replace (sigma * PhiInv p / sigma) with (PhiInv p) by (field; lra). apply Phi_inv_r. exact H.
+    Qed.
+  End LN.
+
+  Section GG.
+    Variable s : @GeneralizedGammaDistribution R.
+    Variables om oc ol : option R.
+    Let m := ov om (GeneralizedGammaDistribution_m s).
+    Let c := ov oc (GeneralizedGammaDistribution_c s).
+    Let la := ov ol (GeneralizedGammaDistribution_lambda_ s).
+    Notation cdf := (eval sts (GeneralizedGammaDistribution_cdf RN s om oc ol)).
+    Notation icdf := (eval sts (GeneralizedGammaDistribution_icdf RN s om oc ol)).
+    Lemma GG_calls :
+      GeneralizedGammaDistribution_cdf RN s om oc ol = mkcall "gengamma" "cdf" [m; c; 0; 1 / la] /\
+      GeneralizedGammaDistribution_icdf RN s om oc ol = mkcall "gengamma" "ppf" [m; c; 0; 1 / la].
+    Proof using. subst m c la. destruct om, oc, ol; cbn; split; reflexivity. Qed.
+    Hypothesis Hla : 0 < la.
+    Lemma GG_scale_pos : 0 < 1 / la. Proof using Hla. apply Rdiv_lt_0_compat; lra. Qed.
+    Lemma GG_virocon_documented x : cdf x = F0gg m c (la * x).
+    Proof using gengamma_cdf Hla. destruct GG_calls as [-> _]. unfold eval. rewrite gengamma_cdf. unfold LScdf. f_equal. field. lra. Qed.
+    Lemma GG_virocon_icdf_cdf x : 0 < x -> icdf (cdf x) = x.
+    Proof using gengamma_cdf gengamma_ppf gg_inv_l gg_range Hla.
+      intros H. destruct GG_calls as [-> ->]. unfold eval. rewrite gengamma_cdf.
+      assert (Hz : 0 < (x - 0) / (1 / la)). { replace ((x - 0) / (1 / la)) with (la * x) by (field; lra). nra. }
+      rewrite gengamma_ppf by (unfold LScdf; apply gg_range; exact Hz).
+      unfold LSppf, LScdf. rewrite gg_inv_l by exact Hz. field. lra.
+    Qed.
+    Lemma GG_virocon_cdf_icdf p : 0 < p < 1 -> 0 < icdf p /\ cdf (icdf p) = p.
+    Proof using gengamma_cdf gengamma_ppf gg_inv_r Hla.
+      intros H. destruct GG_calls as [-> ->]. unfold eval. rewrite gengamma_ppf by exact H. destruct (gg_inv_r m c p H) as [Hq Hr].
+      pose proof GG_scale_pos as Hs. unfold LSppf. split; [nra|].
+      rewrite gengamma_cdf. unfold LScdf.
+      replace ((0 + 1 / la * Q0gg m c p - 0) / (1 / la)) with (Q0gg m c p) by (field; lra). exact Hr.
+    Qed.
+  End GG.
+
+  Section VM.
+    Variable s : @VonMisesDistribution R.
+    Variables ok om : option R.
+    Let kappa := ov ok (VonMisesDistribution_kappa s).
+    Let mu := ov om (VonMisesDistribution_mu s).
+    Notation cdf := (eval sts (VonMisesDistribution_cdf s ok om)).
+    Notation icdf := (eval sts (VonMisesDistribution_icdf s ok om)).
+    Lemma VM_calls :
+      VonMisesDistribution_cdf s ok om = mkcall "vonmises" "cdf" [kappa; mu] /\
+      VonMisesDistribution_icdf s ok om = mkcall "vonmises" "ppf" [kappa; mu].
+    Proof using. subst kappa mu. destruct ok, om; cbn; split; reflexivity. Qed.
+    Lemma VM_virocon_icdf_cdf x : mu - PI < x < mu + PI -> icdf (cdf x) = x.
+    Proof using vonmises_cdf vonmises_ppf vm_inv_l vm_range.
+      intros H. destruct VM_calls as [-> ->]. unfold eval. rewrite vonmises_cdf.
+      assert (Hz : - PI < x - mu < PI) by lra.
+      rewrite vonmises_ppf by (apply vm_range; exact Hz). rewrite vm_inv_l by exact Hz. ring.
+    Qed.
+    Lemma VM_virocon_cdf_icdf p : 0 < p < 1 -> mu - PI < icdf p < mu + PI /\ cdf (icdf p) = p.
+    Proof using vonmises_cdf vonmises_ppf vm_inv_r.
+      intros H. destruct VM_calls as [-> ->]. unfold eval. rewrite vonmises_ppf by exact H. destruct (vm_inv_r kappa p H) as [Hq Hr].
+      split; [lra|]. rewrite vonmises_cdf. replace (mu + Qvm kappa p - mu) with (Qvm kappa p) by ring. exact Hr.
+    Qed.
+  End VM.
+End ViroconMore.
